@@ -319,7 +319,7 @@ fn pump_and_validate(w: &mut World) -> Vec<Issue> {
 /// Catch up completely, then the same oracle.
 fn settle_and_validate(w: &mut World) -> Vec<Issue> {
     // tasks that failed on the injected fault come back after 5 minutes
-    let (runs, _) = w.quiesce_within(400, 1500);
+    let (runs, _) = w.quiesce_within(400, 6000);
     for run in &runs {
         if let Some(f) = run.fatal() {
             return vec![("daemon-would-exit-during-recovery".into(),
@@ -398,16 +398,33 @@ fn is_consistency_issue(sig: &str) -> bool {
 /// namespace of that command's aggregate.
 fn listener_window(muts: &[Mutation], n: usize, strip: &str) -> Option<String> {
     let is_cmd = |m: &Mutation| m.op == "store" && m.place.contains("/command-");
-    let j = (n..muts.len()).find(|k| is_cmd(&muts[*k]))?;
+    let is_listener = |m: &Mutation| {
+        let p = m.place.replace(strip, "");
+        p.starts_with("/data/ca_objects/") || p.starts_with("/data/tasks/")
+    };
+    if n >= muts.len() { return None }
     let i = (0..n).rev().find(|k| is_cmd(&muts[*k]));
     let from = i.map(|i| i + 1).unwrap_or(0);
-    let listener = (from..n).any(|k| {
-        let p = muts[k].place.replace(strip, "");
-        p.starts_with("/data/ca_objects/") || p.starts_with("/data/tasks/")
-    });
-    if !listener { return None }
-    let place = muts[j].place.replace(strip, "");
-    place.strip_prefix("/data/")?.split('/').next().map(|s| s.to_string())
+    // a listener wrote since the last command store
+    if !(from..n).any(|k| is_listener(&muts[k])) { return None }
+    let ns_of = |m: &Mutation| -> Option<String> {
+        m.place.replace(strip, "").strip_prefix("/data/")?
+            .split('/').next().map(|s| s.to_string())
+    };
+    if is_cmd(&muts[n]) { return ns_of(&muts[n]) }
+    // the command store that closes the window, if the run got that far
+    if let Some(j) = (n..muts.len()).find(|k| is_cmd(&muts[*k])) {
+        // only listener writes may lie between the cut and that store
+        if (n..j).all(|k| is_listener(&muts[k])) { return ns_of(&muts[j]) }
+        return None
+    }
+    // a failing listener write aborts the command: no store follows
+    if is_listener(&muts[n]) {
+        let cas = (from..n).any(|k| muts[k].place.replace(strip, "")
+            .starts_with("/data/ca_objects/"));
+        return Some(if cas { "cas".into() } else { "other".into() })
+    }
+    None
 }
 
 fn pick_cuts(muts: &[Mutation], max: usize, rng: &mut Rng) -> Vec<usize> {
@@ -463,7 +480,7 @@ fn run_pair(r: &mut Report, args: &Args, pair: &Pair, rng: &mut Rng) {
     kvh::util::copy_dir(&repo, &pre.join("repo")).unwrap();
 
     // ---- twin (fault-free) run, recording every mutation ----------------
-    let max_cuts = if args.thorough() { 400 } else { 14 };
+    let max_cuts = if args.thorough() { 400 } else { 6 };
     hooks::begin(Some(SnapCfg {
         srcs: vec![(data.clone(), "data".into()), (repo.clone(), "repo".into())],
         dst: cuts.clone(), max_cuts: 400,
@@ -511,6 +528,7 @@ fn run_pair(r: &mut Report, args: &Args, pair: &Pair, rng: &mut Rng) {
         let cut_dir = cuts.join(format!("cut{n}"));
         if !cut_dir.exists() { continue }
         for realisation in ["crash", "eio"] {
+            let mut eio_list: Vec<Mutation> = vec![];
             r.nontrivial(format!("{}|{realisation}|{label}", ctx.pair_name));
             r.distinct("cut_labels", label.clone());
             kvh::util::mark_inflight(&args.out, &json!({
@@ -543,7 +561,10 @@ fn run_pair(r: &mut Report, args: &Args, pair: &Pair, rng: &mut Rng) {
                 hooks::begin(None, Some(n), None);
                 let out = hist::apply(&mut w2, &ctx.op);
                 let (runs, _) = w2.quiesce();
-                let (_, injected) = hooks::end();
+                let (fmuts, injected) = hooks::end();
+                // the n-th mutation of THIS run is the one that failed; task
+                // order may differ from the recording run
+                eio_list = fmuts;
                 if !injected {
                     r.count("eio_not_reached", 1);
                     drop(w2);
@@ -605,7 +626,10 @@ fn run_pair(r: &mut Report, args: &Args, pair: &Pair, rng: &mut Rng) {
             };
             r.count(&format!("cut_checks_{realisation}"), 1);
             if let Some((sig, detail)) = issues.first() {
-                let sig = match listener_window(&muts, n, &ctx.strip) {
+                let (list, label) = if realisation == "eio" && eio_list.len() > n {
+                    (&eio_list, eio_list[n].label(&ctx.strip))
+                } else { (&muts, label.clone()) };
+                let sig = match listener_window(list, n, &ctx.strip) {
                     Some(ns) if is_consistency_issue(sig) => {
                         r.count("in_listener_window", 1);
                         format!("listener-state-ahead-of-command-log:{ns}")
